@@ -903,6 +903,10 @@ def transform(node, *callbacks):
                     and isinstance(node, ParsedObject)
                     and not node._metadata
                 ):
+                    # The replacement may be an object of the input tree (say a
+                    # child of the node it replaces): the metadata goes on a
+                    # copy, the input is never modified.
+                    node = node._replace()
                     node._metadata.update(origin._metadata)
 
         return node
